@@ -24,7 +24,20 @@ func holderMethod(name, typ string) *dg.Method {
 	p := dg.A(dg.Obj(
 		dg.F("one", dg.Ref(typ)),
 		dg.F("arr", dg.ArrayOf(dg.A(dg.Ref(typ)))),
+		dg.F("arr2", dg.ArrayOf(dg.A(dg.ArrayOf(dg.A(dg.Ref(typ)))))),
 		dg.F("mp", dg.MapOf(dg.A(dg.Prim("String")), dg.A(dg.Ref(typ)))),
+		dg.F("twin", dg.Ref("Plain0"))))
+	return method(name, "POST", "/sole/"+name, &p, nil)
+}
+
+// holderNoMap: the same without the map (a type whose only validation is `required` on
+// primitive attributes is not validated below a map: recorded finding, witness stream).
+func holderNoMap(name, typ string) *dg.Method {
+	p := dg.A(dg.Obj(
+		dg.F("one", dg.Ref(typ)),
+		dg.F("arr", dg.ArrayOf(dg.A(dg.Ref(typ)))),
+		dg.F("arr2", dg.ArrayOf(dg.A(dg.ArrayOf(dg.A(dg.Ref(typ)))))),
+		dg.F("arr3", dg.ArrayOf(dg.A(dg.ArrayOf(dg.A(dg.ArrayOf(dg.A(dg.Ref(typ)))))))),
 		dg.F("twin", dg.Ref("Plain0"))))
 	return method(name, "POST", "/sole/"+name, &p, nil)
 }
@@ -40,6 +53,9 @@ func soleCoveringDesign() *dg.Design {
 		{Name: "SoleKey", Base: dg.Obj(dg.F("m", dg.MapOf(strAttr(pat), dg.A(dg.Prim("String")))), dg.F("n", dg.Prim("Int")))},
 		{Name: "SoleKeyLen", Base: dg.Obj(dg.F("m", dg.MapOf(strAttr(dg.Validation{MaxLen: ip(2)}), dg.A(dg.Prim("Boolean")))))},
 		{Name: "SoleKeyEnum", Base: dg.Obj(dg.F("m", dg.MapOf(strAttr(dg.Validation{Enum: []any{"a", "bc"}}), dg.A(dg.Prim("Int")))))},
+		// `required` on primitive attributes only
+		{Name: "SoleReq", Base: dg.Obj(dg.Req("a", dg.Prim("String")), dg.Req("w", dg.Prim("Int")), dg.F("o", dg.Prim("Boolean")))},
+		{Name: "SoleReqNested", Base: dg.Obj(dg.F("in", dg.Ref("SoleReq")), dg.F("ins", dg.ArrayOf(dg.A(dg.ArrayOf(dg.A(dg.Ref("SoleReq")))))))},
 		// map value only
 		{Name: "SoleVal", Base: dg.Obj(dg.F("m", dg.MapOf(dg.A(dg.Prim("String")), intAttr(dg.Validation{Min: fp(1)}))))},
 		// array element only
@@ -78,6 +94,10 @@ func soleCoveringDesign() *dg.Design {
 	s := &dg.Service{Name: "sole"}
 	for _, t := range d.Types {
 		if t.Name == "Plain0" || t.Name == "AliasP" || t.Name == "Leaf" || t.Name == "Mid" || t.Name == "KeyLeaf" || t.Name == "KeyMid" || t.Name == "RecB" {
+			continue
+		}
+		if t.Name == "SoleReq" || t.Name == "SoleReqNested" {
+			s.Methods = append(s.Methods, holderNoMap("s_"+lower(t.Name), t.Name))
 			continue
 		}
 		s.Methods = append(s.Methods, holderMethod("s_"+lower(t.Name), t.Name))
